@@ -4,7 +4,7 @@
               refines r d = both raise the same class of exception, or r is a sparse vector with Rv r d
               okrel R x y = whenever y (NumPy) returns a value, x (sparse) returns a related value
               run false = the history semantics of the repaired source (pending_fixes/C09_1 .. C09_7) *)
-From V Require Import Common.NumFacts C09.Model C09.Dense C09.Proofs C09.ProofsDeep.
+From V Require Import Common.NumFacts C09.Model C09.Dense C09.Proofs C09.ProofsDeep C09.Model3 C09.ProofsDeep3.
 
 (* ---------- representation invariant ---------- *)
 (* construction establishes it and represents the input *)
@@ -643,3 +643,182 @@ Proof.
   eapply frun2_cons. { eapply F2_lred; [vm_compute; reflexivity | auto | auto]. }
   apply frun2_nil.
 Qed.
+
+(* ================================================================== second deepening round *)
+(* ---------- 2-d block reads a[rows, cols] (one of the two a slice, the other a slice / int list / mask) ---------- *)
+Theorem C09_get_block_refines : forall rows M m n w, Forall2 Rv rows M -> is_block m n = true ->
+  valid_index (length rows) m -> Forall (fun c => length c = w) rows -> valid_index w n ->
+  exists B B', arrF_get rows (XPair m n) = GDense2F B /\ np_get_block M m n = Ok B' /\ Forall2 (Forall2 Qeq) B B' /\
+               length B = length (index_list (length rows) m).
+Proof. exact get_block_history_refines. Qed.
+Print Assumptions C09_get_block_refines.
+Example C09_ex_get_block :
+  let rows := [of_dense [1; 0; 2]; of_dense [0; 0; 3]] in
+  Forall2 Rv rows [[1; 0; 2]; [0; 0; 3]] /\ is_block (IList [1; 0]%nat) (ISlice 1 3 1) = true /\ valid_index (length rows) (IList [1; 0]%nat) /\
+  Forall (fun c => length c = 3%nat) rows /\ valid_index 3 (ISlice 1 3 1) /\
+  arrF_get rows (XPair (IList [1; 0]%nat) (ISlice 1 3 1)) = GDense2F [[0; 3]; [0; 2]].
+Proof.
+  cbn zeta. split; [constructor; [apply Rv_of_dense|constructor; [apply Rv_of_dense|constructor]]|]. split; [reflexivity|].
+  split; [repeat constructor|]. split; [repeat constructor|]. split; [cbn; lia|]. vm_compute. reflexivity.
+Qed.
+
+(* ---------- writes into logical vectors: the kernel's result IS NumPy's (no representation gap: the set of true indices
+   is the boolean array) ---------- *)
+Theorem C09_lset_scalar_refines : forall b ix q isb, valid_index (length b) ix ->
+  exists r, vecB_set b ix (PS q isb) = Ok r /\ np_setb b ix [truthy q] = Ok r.
+Proof. exact vecB_set_scalar. Qed.
+Print Assumptions C09_lset_scalar_refines.
+Theorem C09_lset_values_refines : forall b ix (w : bits), valid_index (length b) ix -> nonint_ix ix ->
+  length w = length (index_list (length b) ix) -> (2 <= length w)%nat ->
+  exists r, vecB_set b ix (PL w) = Ok r /\ np_setb b ix w = Ok r.
+Proof.
+  intros b ix w Hv Hn Hl H2. destruct (setb_values b ix w Hv Hn Hl) as (r & E & E'). exists r. split; [|exact E'].
+  destruct w as [|x0 [|x1 w]]; cbn in H2; try lia. destruct ix; cbn in Hn; try contradiction; exact E.
+Qed.
+Print Assumptions C09_lset_values_refines.
+Example C09_ex_lset : valid_index 3 (IMask [true; false; true]) /\ nonint_ix (IMask [true; false; true]) /\
+  vecB_set [true; true; false] (IMask [true; false; true]) (PL [false; true]) = Ok [false; true; true].
+Proof. split; [reflexivity|]. split; [exact I|]. reflexivity. Qed.
+
+(* ---------- mean / max / min of a logical vector are NumPy's reductions of the 0/1 image ---------- *)
+Theorem C09_lred_refines : forall r (b : bits) keep, b <> [] -> r = RMean \/ r = RMax \/ r = RMin ->
+  exists q q', np_lred r b = Ok q' /\ q == q' /\
+               red_vecB r b keep = (if keep then RNew (OV (keep1 q) false) else RScal q).
+Proof. exact lred_refines. Qed.
+Print Assumptions C09_lred_refines.
+Example C09_ex_lred : [true; false] <> [] /\ red_vecB RMean [true; false] false = RScal (1 # 2) /\ red_vecB RMin [true; false] true = RNew (OV [None] false).
+Proof. split; [discriminate|]. split; vm_compute; reflexivity. Qed.
+
+(* ---------- all histories over fop3 = fop2 plus 2-d block reads of float arrays, item / list / mask / slice / [:] writes
+   into logical vectors (scalars, lists, other logical vectors) and mean / max / min of logical vectors.
+   np_step3 = np_step2 extended by NumPy's semantics of these operations (np_extra3, executed by the harness) ---------- *)
+Theorem C09_history_refines_3 : forall ops s d, sim s d -> frun3 s ops ->
+  sim (fst (run false s ops)) (np_run3 d ops) /\ Forall2 orel3 (snd (run false s ops)) (np_outs3 d ops).
+Proof. exact history_refines_3. Qed.
+Print Assumptions C09_history_refines_3.
+Theorem C09_history_dense_3 : forall ops s, store_wf s -> frun3 s ops ->
+  sim (fst (run false s ops)) (np_run3 (abs_store s) ops) /\ Forall2 orel3 (snd (run false s ops)) (np_outs3 (abs_store s) ops).
+Proof. exact history_dense_3. Qed.
+Print Assumptions C09_history_dense_3.
+(* what the harness executes is this step *)
+Theorem C09_harness_step3 : forall d o,
+  (np_extra d o = None -> np_step3h d o = np_step3 d o) /\ (forall r, np_extra3 d o = Some r -> np_step3h d o = r /\ np_step3 d o = r).
+Proof. intros d o. split; [apply np_step3h_step3 | apply np_step3h_new]. Qed.
+Print Assumptions C09_harness_step3.
+Definition exOps5 : list xop :=
+  [XAGet 3 (XPair (ISlice 0 2 1) (IList [0; 2]%nat)); XOp (OSet 4 (IList [0; 1]%nat) (ABArr [false; true]));
+   XOp (OSet 4 IOpen (AObj 5)); XOp (OSet 4 (IInt 1) (AScal 2)); XOp (ORed RMean 4 None false);
+   XOp (ORed RMin 4 (Some 0%nat) true); XOp (OGet 4 (IList [0; 2]%nat)); XAGet 3 (XPair (IMask [false; true]) (ISlice 1 3 1))].
+Example C09_ex_frun3 : frun3 exS exOps5.
+Proof.
+  unfold exOps5.
+  eapply frun3_cons.
+  { eapply F3_get_block with (w := 3%nat); [vm_compute; reflexivity | reflexivity | cbn; lia | vm_compute; discriminate
+                                           | repeat constructor | repeat constructor; cbn; lia]. }
+  vm_compute fst.
+  eapply frun3_cons.
+  { eapply F3_lset_values with (w := [false; true]); [vm_compute; reflexivity | repeat constructor; cbn; lia | exact I | reflexivity | reflexivity | cbn; lia]. }
+  vm_compute fst.
+  eapply frun3_cons.
+  { eapply F3_lset_values with (w := [false; false; true]); [vm_compute; reflexivity | exact I | exact I | vm_compute; reflexivity | reflexivity | cbn; lia]. }
+  vm_compute fst.
+  eapply frun3_cons. { eapply F3_lset_scalar; [vm_compute; reflexivity | cbn; lia | left; eexists; reflexivity]. }
+  vm_compute fst.
+  eapply frun3_cons. { eapply F3_lred; [vm_compute; reflexivity | discriminate | auto | auto]. }
+  vm_compute fst.
+  eapply frun3_cons. { eapply F3_lred; [vm_compute; reflexivity | discriminate | auto | auto]. }
+  vm_compute fst.
+  eapply frun3_cons. { apply F3_old. eapply F2_lget; [vm_compute; reflexivity | repeat constructor; cbn; lia]. }
+  vm_compute fst.
+  eapply frun3_cons.
+  { eapply F3_get_block with (w := 3%nat); [vm_compute; reflexivity | reflexivity | reflexivity | vm_compute; discriminate
+                                           | repeat constructor | cbn; lia]. }
+  apply frun3_nil.
+Qed.
+
+(* ---------- python ints as indices (negative ones included), the code AS IT IS ---------- *)
+(* the layer is conservative over the nat indices of the model, and every write it performs keeps the representation invariant *)
+Theorem C09_zindex_conservative : forall c k q, (0 <= k)%Z ->
+  vecF_zget c (ZInt k) = vec_get (VF c) (IInt (Z.to_nat k)) /\
+  vecF_zset c (ZInt k) (SVScal q) = vecF_set c (IInt (Z.to_nat k)) (PS q false).
+Proof. intros. split; [now apply zget_nonneg | now apply zset_nonneg]. Qed.
+Print Assumptions C09_zindex_conservative.
+Theorem C09_zset_keeps_invariant : forall c ix v r, wf c -> vecF_zset c ix v = Ok r -> wf r.
+Proof. exact vecF_zset_wf. Qed.
+Print Assumptions C09_zset_keeps_invariant.
+(* a negative int read from a SparseVector is 0 whatever is stored; NumPy reads the element counted from the end; the two
+   agree exactly when that element is zero *)
+Theorem C09_neg_get_vs_numpy : forall c v k, Rv c v -> (- Z.of_nat (length c) <= k < 0)%Z ->
+  exists q', np_zget1 v k = Ok q' /\ q' = nth (Z.to_nat (Z.of_nat (length c) + k)) v 0 /\
+             vecF_zget c (ZInt k) = RScal 0 /\ (0 == q' <-> getc c (Z.to_nat (Z.of_nat (length c) + k)) == 0).
+Proof. exact neg_get_vs_numpy. Qed.
+Print Assumptions C09_neg_get_vs_numpy.
+Example C09_ex_neg_get : Rv (of_dense [1; 2]) [1; 2] /\ (- Z.of_nat (length (of_dense [1%Q; 2%Q])) <= -1 < 0)%Z.
+Proof. split; [apply Rv_of_dense|cbn; lia]. Qed.
+(* the statements "negative ints behave as in NumPy" are refuted by v = [1, 2]: v[-1] is 0 (NumPy 2); v[-1] = 5 stores the
+   key -1 (NumPy [1, 5]); v[-1:2] is [0, 1, 2] (NumPy [2]); a[0, -1] is 0 (NumPy 2) *)
+Theorem C09_neg_get_refuted : ~ neg_get_statement.
+Proof. exact neg_get_refuted. Qed.
+Print Assumptions C09_neg_get_refuted.
+Theorem C09_neg_set_refuted : ~ neg_set_statement.
+Proof. exact neg_set_refuted. Qed.
+Print Assumptions C09_neg_set_refuted.
+Theorem C09_neg_slice_refuted : ~ neg_slice_statement.
+Proof. exact neg_slice_refuted. Qed.
+Print Assumptions C09_neg_slice_refuted.
+Theorem C09_neg_column_refuted : ~ neg_column_statement.
+Proof. exact neg_column_refuted. Qed.
+Print Assumptions C09_neg_column_refuted.
+(* what the write does, for every vector: a non-zero value leaves the representable states (key outside range(size)); a zero
+   value leaves the vector as it is while NumPy zeroes the element counted from the end *)
+Theorem C09_neg_set_behaviour : forall c v k q, Rv c v -> (- Z.of_nat (length c) <= k < 0)%Z ->
+  (~ q == 0 -> vecF_zset c (ZInt k) (SVScal q) = Err EOther) /\
+  (q == 0 -> vecF_zset c (ZInt k) (SVScal q) = Ok c /\ np_zset v (ZInt k) [q] = Ok (upd v (Z.to_nat (Z.of_nat (length c) + k)) q)).
+Proof. intros c v k q H Hk. split; [intros Hq; apply neg_set_nonzero; [lia|exact Hq] | intros Hq; now apply neg_set_zero]. Qed.
+Print Assumptions C09_neg_set_behaviour.
+(* the ROW index of a SparseArray is a python list index: a[k], a[k, j], a[[k...], j] are NumPy's for every int k (negative,
+   out of range: IndexError on both sides) and every column j inside the rows *)
+Theorem C09_array_row_ints : forall rows M k ks j ro w, Forall2 Rv rows M ->
+  match arrF_zget rows (ZRow k), np_azget M ro (ZRow k) with
+  | GRow i, DNew (DV r' ro') => Rv (nth i rows []) r' /\ ro' = ro /\ (i < length rows)%nat
+  | GErr e, DErr e' => e = e'
+  | _, _ => False
+  end /\
+  (Forall (fun c => length c = w) rows -> (0 <= j < Z.of_nat w)%Z ->
+   match arrF_zget rows (ZElem k j), np_azget M ro (ZElem k j) with
+   | GScalF q, DScal q' => q == q'
+   | GErr e, DErr e' => e = e'
+   | _, _ => False
+   end /\
+   match arrF_zget rows (ZCol ks j), np_azget M ro (ZCol ks j) with
+   | GDenseF l, DDense l' => Forall2 Qeq l l'
+   | GErr e, DErr e' => e = e'
+   | _, _ => False
+   end).
+Proof.
+  intros rows M k ks j ro w H. split; [now apply arr_zget_row_refines|]. intros Hw Hj.
+  split; [eapply arr_zget_elem_refines; eauto | eapply arr_zget_col_refines; eauto].
+Qed.
+Print Assumptions C09_array_row_ints.
+Example C09_ex_array_row_ints :
+  let rows := [of_dense [1; 0; 2]; of_dense [0; 0; 3]] in
+  Forall2 Rv rows [[1; 0; 2]; [0; 0; 3]] /\ Forall (fun c => length c = 3%nat) rows /\ (0 <= 2 < Z.of_nat 3)%Z /\
+  arrF_zget rows (ZElem (-1) 2) = GScalF 3 /\ arrF_zget rows (ZRow (-2)) = GRow 0 /\ arrF_zget rows (ZRow (-3)) = GErr EIndex.
+Proof.
+  cbn zeta. split; [constructor; [apply Rv_of_dense|constructor; [apply Rv_of_dense|constructor]]|]. split; [repeat constructor|].
+  split; [cbn; lia|]. repeat split; vm_compute; reflexivity.
+Qed.
+
+(* ---------- a[:, n] with an ndarray n of two or more elements raises ValueError (elementwise `n == open_slice`); NumPy reads
+   the block.  With at most one element the block is NumPy's ---------- *)
+Theorem C09_open_nd_refuted : ~ open_nd_statement.
+Proof. exact open_nd_refuted. Qed.
+Print Assumptions C09_open_nd_refuted.
+Theorem C09_open_nd_short : forall rows M n w, Forall2 Rv rows M -> Forall (fun c => length c = w) rows -> valid_index w n ->
+  match n with IList l => (length l <= 1)%nat | IMask mk => (length mk <= 1)%nat | _ => False end ->
+  exists B B', arrF_get_open_nd rows n = GDense2F B /\ np_get_block M IOpen n = Ok B' /\ Forall2 (Forall2 Qeq) B B'.
+Proof. exact open_nd_short. Qed.
+Print Assumptions C09_open_nd_short.
+Example C09_ex_open_nd : valid_index 2 (IList [1]%nat) /\ arrF_get_open_nd [of_dense [1; 2]] (IList [1]%nat) = GDense2F [[2]] /\
+  arrF_get_open_nd [of_dense [1; 2]] (IList [0; 1]%nat) = GErr EValue.
+Proof. split; [repeat constructor|]. split; vm_compute; reflexivity. Qed.
